@@ -9,4 +9,5 @@ MCOutSmall == {<<0,1>>, <<1,5>>, <<9,10>>}
 MCPatSmall == {"none", "all"}
 MCBaseSmall == {<<1,5>>}
 MCNoSample == <<0, 0>>
+MCNone == {}
 ====
